@@ -2,6 +2,7 @@
 package main
 
 import (
+	"encoding/json"
 	"flag"
 	"fmt"
 	"os"
@@ -27,6 +28,7 @@ func main() {
 	only := flag.String("rule", "", "run only this rule (diagnostic; no evidence written)")
 	explain := flag.String("explain", "", "print a violations file and exit")
 	debug := flag.String("debug", "", "print engine internals (eff|sm) and exit")
+	embed := flag.String("embed", "", "key:file - embed a JSON file into the evidence under coverage.<key> (informational)")
 	also := flag.String("also", "", "label:exitcode:logfile of a run of the same check under another build configuration; verdicts must agree")
 	flag.Parse()
 
@@ -141,6 +143,16 @@ func main() {
 			res.Explanation = "static obligations discharged by repository-specific rules"
 		}
 		res.Classify(findings)
+		if *embed != "" {
+			if parts := strings.SplitN(*embed, ":", 2); len(parts) == 2 {
+				if b, err := os.ReadFile(parts[1]); err == nil {
+					var v interface{}
+					if json.Unmarshal(b, &v) == nil {
+						res.Extra[parts[0]] = v
+					}
+				}
+			}
+		}
 		alsoRC := -1
 		if *also != "" {
 			parts := strings.SplitN(*also, ":", 3)
